@@ -290,11 +290,16 @@ def run_sequence(ctx, rng, nops):
         objs.append(snap_std(survey))
         kinds.append(kind)
     # originals must not have been changed by operations on copies/selections
-    for o, r0 in originals:
-        if render(o) != r0:
+    for io, (o, r0) in enumerate(originals):
+        r1 = render(o)
+        if r1 != r0:
+            a, b = ' '.join(r0).split(' # '), ' '.join(r1).split(' # ')
+            what = [f'{x[:120]} -> {y[:120]}' for x, y in zip(a, b) if x != y]
             ctx.violation('original-changed',
-                          'a survey changed after operations on its copy / '
-                          'selection', {'init': init, 'ops': ops})
+                          f'a survey (original #{io}) changed after '
+                          f'operations on its copy / selection: {what[:2]}',
+                          {'init': init, 'ops': ops, 'original': io,
+                           'changed': what})
             return None
     return init + ' || ' + ' ;; '.join(ops), real, objs, kinds, ties
 
@@ -331,8 +336,33 @@ def corpus_checks(ctx):
         ctx.violation('size-one-array-parameter',
                       'noise_floor / relative_error of shape (1,1,1) on a '
                       '1x1x1 survey is not accepted', {'corpus': '1x1x1'})
+    # selection without restriction must not alias the original
+    s3 = emg3d.Survey(
+        sources=[emg3d.TxElectricPoint((0, 0, 0, 0, 0)),
+                 emg3d.TxElectricPoint((5, 0, 0, 0, 0))],
+        receivers=[emg3d.RxElectricPoint((10, 0, 0, 0, 0)),
+                   emg3d.RxElectricPoint((20, 0, 0, 0, 0))],
+        frequencies=[1.0, 2.0], data=data.copy(), noise_floor=0.1,
+        relative_error=0.05)
+    obs0 = s3.data.observed.data.copy()
+    sd0 = s3.standard_deviation.data.copy()
+    for kw in [dict(remove_empty=False), dict(), dict(
+            sources=list(s3.sources), remove_empty=False)]:
+        sel = s3.select(**kw)
+        sel.add_noise(add_to='observed')
+        sel.noise_floor = 3.0
+        if not (np.array_equal(obs0, s3.data.observed.data) and
+                np.array_equal(sd0, s3.standard_deviation.data)):
+            ctx.violation(
+                'original-changed',
+                f'add_noise on survey.select({kw}) changed the observed data '
+                f'/ standard deviation of the original survey',
+                {'corpus': 'select without restriction, add_noise',
+                 'select_kwargs': repr(kw)})
+            break
     ctx.count(key='corpus-half-nf')
     ctx.count(key='corpus-1x1x1')
+    ctx.count(key='corpus-select-alias')
 
 
 def suite_trace(ctx):
